@@ -7,3 +7,33 @@ func thorough(c *Ctx) {}
 func loadMutantOverlay(verif, repo, name string) (map[string][]byte, error) {
 	return nil, nil
 }
+
+// debugAff prints the facts known at each block of a function (diagnostics).
+func debugAff(p *Prog, pkg, name string) {
+	fn := p.Func(pkg, name)
+	if fn == nil {
+		println("no such function")
+		return
+	}
+	a := NewAff(p)
+	for _, b := range fn.Blocks {
+		println("block", b.Index, b.Comment)
+		for _, f := range a.FactsAt(b) {
+			println("   ", f.String())
+		}
+	}
+	println("loop invariants:")
+	for _, f := range a.loopInvariants(fn) {
+		println("   ", f.String())
+	}
+	for _, callee := range []string{"eatUntilStartOfFrame"} {
+		if g := p.Func(pkg, callee); g != nil {
+			if e := a.ensuresOf(g); e != nil {
+				println("ensures of", callee)
+				for _, c := range e.cons {
+					println("   ", c.String())
+				}
+			}
+		}
+	}
+}
